@@ -345,6 +345,78 @@ class Node:
         self.pair = pair
 
 
+class FNode:
+    """CLVMStorage object whose accessors fail when the simulator says so: the k-th accessor call
+    of the object graph raises (an I/O-style fault in a user-supplied storage object), or one leaf
+    temporarily reports a malformed atom"""
+
+    __slots__ = ("_atom", "_pair", "_st")
+
+    def __init__(self, atom, pair, st):
+        self._atom = atom
+        self._pair = pair
+        self._st = st
+
+    def _tick(self):
+        st = self._st
+        c = st["countdown"]
+        if c is not None:
+            if c == 0:
+                st["countdown"] = None
+                st["fired"] += 1
+                raise RuntimeError("simulated accessor failure")
+            st["countdown"] = c - 1
+
+    @property
+    def atom(self):
+        self._tick()
+        return self._atom
+
+    @property
+    def pair(self):
+        self._tick()
+        return self._pair
+
+
+def build_faulty(tree, rng, stats):
+    """object graph of FNodes (equal sub-trees interned, as in build_dag) + its shared fault state
+    + the list of leaf objects"""
+    st = {"countdown": None, "fired": 0}
+    ids = {}
+    objs = {}
+    leaves = []
+    res = []
+    stack = [(tree, False)]
+    n_nodes = 0
+    while stack:
+        node, done = stack.pop()
+        if isinstance(node, (bytes, bytearray)):
+            key = ("a", bytes(node))
+        elif done:
+            r = res.pop()
+            l = res.pop()
+            key = ("p", id(l), id(r))
+        else:
+            stack.append((node, True))
+            stack.append((node[1], False))
+            stack.append((node[0], False))
+            continue
+        n_nodes += 1
+        intern = rng.chance(2, 3)
+        if intern and key in objs:
+            res.append(objs[key])
+            continue
+        if key[0] == "a":
+            o = FNode(key[1], None, st)
+            leaves.append(o)
+        else:
+            o = FNode(None, (l, r), st)
+        if intern:
+            objs[key] = o
+        res.append(o)
+    return res[0], st, leaves, n_nodes
+
+
 def build_dag(tree, kind, mod, rng, stats):
     """The tree as an object graph in which equal sub-trees are (mostly) ONE Python object that
     several parents point to - the way application code reuses Program values as building blocks.
@@ -421,7 +493,20 @@ WRAPPERS = [
     "dag_program",
     "dag_lazy_leaves",
     "program_wrap_dag_node",
+    "retry_after_fault",
 ]
+
+
+def limit_process():
+    """address-space cap: a conversion that goes wild (e.g. a cyclic node graph) dies on its own
+    instead of taking the machine's memory"""
+    import resource
+
+    cap = 3 << 30  # 16 workers x 3 GiB stays below the machine's memory
+    try:
+        resource.setrlimit(resource.RLIMIT_AS, (cap, cap))
+    except (ValueError, OSError):
+        pass
 
 
 def load_wheel():
@@ -472,6 +557,31 @@ def execute_case(case, mod):
         x = build_dag(tree, kind, mod, Rng(case.get("decision_seed", 0) ^ 0xDA6), stats)
         if w == "program_wrap_dag_node":
             x = Program.wrap(x)
+    elif w == "retry_after_fault":
+        # history: one or two conversions of the same objects that FAIL because an accessor raised
+        # or a leaf was malformed at that moment, then the fault is gone and the conversion proper
+        frng = Rng(case.get("decision_seed", 0) ^ 0xFA17)
+        x, fst, leaves, n_nodes = build_faulty(tree, frng, stats)
+        for _ in range(1 + frng.below(2)):
+            mode = frng.below(3)
+            bad = None
+            if mode == 0 or not leaves:
+                fst["countdown"] = frng.below(2 * n_nodes + 1)
+            else:
+                bad = leaves[frng.below(len(leaves))]
+                keep = bad._atom
+                bad._atom = "not bytes" if mode == 1 else 17
+            try:
+                m.clvm_tree_to_lazy_node(x)
+                stats["prior_call_succeeded"] = stats.get("prior_call_succeeded", 0) + 1
+            except (KeyboardInterrupt, SystemExit):
+                raise
+            except BaseException:
+                stats["prior_call_failed"] = stats.get("prior_call_failed", 0) + 1
+            fst["countdown"] = None
+            if bad is not None:
+                bad._atom = keep
+        stats["accessor_raised"] = stats.get("accessor_raised", 0) + fst["fired"]
     else:
         raise ValueError("unknown wrapper " + w)
     try:
@@ -479,7 +589,9 @@ def execute_case(case, mod):
         blob = m.ser_2026(lazy)
         back = m.ser_legacy(m.deser_2026(blob))
         direct = m.ser_legacy(lazy)
-    except Exception as e:  # the function must not fail on a valid object
+    except (KeyboardInterrupt, SystemExit):
+        raise
+    except BaseException as e:  # the function must not fail on a valid object (pyo3 panics are BaseException)
         return ({"oracle": "converts-without-error", "class": {"wrapper": w}, "detail": "%s: %s" % (type(e).__name__, e)}, stats, dec.log)
     if back != expect or direct != expect:
         return (
@@ -506,7 +618,7 @@ def generate_case(master, tier, run):
         max_leaves = 300 if tier == "thorough" else 120
     tree = gen_tree(rng, max_leaves)
     # lazy wrappers and the simulated storage get most of the weight
-    w = WRAPPERS[rng.below(len(WRAPPERS))] if rng.chance(1, 2) else ["sim_storage", "lazy_legacy", "lazy_backrefs", "program_wrap_lazy", "program_wrap_sim_storage", "lazy_2026", "mixed", "mixed", "dag_node", "dag_program"][rng.below(10)]
+    w = WRAPPERS[rng.below(len(WRAPPERS))] if rng.chance(1, 2) else ["sim_storage", "lazy_legacy", "lazy_backrefs", "program_wrap_lazy", "program_wrap_sim_storage", "lazy_2026", "mixed", "mixed", "dag_node", "dag_program", "retry_after_fault", "retry_after_fault"][rng.below(12)]
     return {"tree": tree_to_json(tree), "wrapper": w, "decision_seed": rng.next(), "churn": rng.chance(3, 4)}
 
 
@@ -528,14 +640,20 @@ def count_pairs(j):
 
 # --------------------------------------------------------------------------- worker
 def worker(args):
+    limit_process()
     mod = load_wheel()
     master, tier, first, stride, total, deadline, out = args
+    cur = open(out + ".cur", "w")
     t_end = time.time() + deadline
     summary = {"runs": 0, "nontrivial": 0, "fps": [], "counters": {}, "violations": [], "samples": [], "digest": 0}
     fps = set()
     run = first
     while run < total and time.time() < t_end:
         case = generate_case(master, tier, run)
+        # which case this worker is in, for the parent to attribute a dead worker
+        cur.seek(0)
+        cur.write("%-20d" % run)
+        cur.flush()
         viol, stats, log = execute_case(case, mod)
         summary["runs"] += 1
         for k, v in stats.items():
@@ -559,6 +677,7 @@ def worker(args):
 
 
 def exec_case_file(path):
+    limit_process()
     mod = load_wheel()
     case = json.load(open(path))
     viol, stats, log = execute_case(case, mod)
@@ -570,8 +689,11 @@ def run_case_fresh(case, hashseed="0"):
     path = VERIF + "/target/run/c27-cand-%d.json" % os.getpid()
     os.makedirs(os.path.dirname(path), exist_ok=True)
     json.dump(case, open(path, "w"))
-    env = dict(os.environ, PYTHONHASHSEED=hashseed)
-    p = subprocess.run([sys.executable, os.path.abspath(__file__), "--exec-case", path], capture_output=True, text=True, env=env, timeout=120)
+    env = dict(os.environ, PYTHONHASHSEED=hashseed, RUST_BACKTRACE="0")
+    try:
+        p = subprocess.run([sys.executable, os.path.abspath(__file__), "--exec-case", path], capture_output=True, text=True, env=env, timeout=120)
+    except subprocess.TimeoutExpired:
+        return {"oracle": "no-crash", "class": {"wrapper": case["wrapper"]}, "detail": "interpreter did not finish the case within 120 s"}
     if p.returncode != 0:
         return {"oracle": "no-crash", "class": {"wrapper": case["wrapper"]}, "detail": "interpreter died: " + p.stderr[-300:]}
     return json.loads(p.stdout.strip().splitlines()[-1])["violation"]
@@ -678,7 +800,7 @@ def parent(tier, master, runs, workers, budget_s):
     procs = []
     for k in range(workers):
         out = "%s/target/run/c27-%d-w%d.json" % (VERIF, os.getpid(), k)
-        env = dict(os.environ, PYTHONHASHSEED="0")
+        env = dict(os.environ, PYTHONHASHSEED="0", RUST_BACKTRACE="0")
         p = subprocess.Popen([sys.executable, os.path.abspath(__file__), "--worker", str(master), tier, str(k), str(workers), str(runs), str(budget_s), out], env=env)
         procs.append((p, out, k))
     merged = {"runs": 0, "nontrivial": 0, "counters": {}, "violations": [], "samples": [], "digest": 0}
@@ -686,10 +808,28 @@ def parent(tier, master, runs, workers, budget_s):
     harness_problem = False
     for p, out, k in procs:
         rc = p.wait()
+        curfile = out + ".cur"
         if rc != 0 or not os.path.exists(out):
-            print("HARNESS-ERROR: C27 worker %d exited with %s" % (k, rc), file=sys.stderr)
-            harness_problem = True
+            # a dead worker: the case it was in is the suspect; confirm in a fresh interpreter
+            try:
+                run = int(open(curfile).read().strip())
+            except (OSError, ValueError):
+                run = None
+            if os.path.exists(curfile):
+                os.remove(curfile)
+            conf = None
+            if run is not None:
+                case = generate_case(master, tier, run)
+                conf = run_case_fresh(case)
+            if conf is not None:
+                merged["violations"].append({"run": run, "case": case, "violation": conf})
+                merged["counters"]["fault.worker_died_attributed"] = merged["counters"].get("fault.worker_died_attributed", 0) + 1
+            else:
+                print("HARNESS-ERROR: C27 worker %d exited with %s at run %s and the case passes in a fresh interpreter" % (k, rc, run), file=sys.stderr)
+                harness_problem = True
             continue
+        if os.path.exists(curfile):
+            os.remove(curfile)
         s = json.load(open(out))
         os.remove(out)
         merged["runs"] += s["runs"]
@@ -737,7 +877,7 @@ def parent(tier, master, runs, workers, budget_s):
     wall = time.time() - t0
     samples = sorted(merged["samples"], key=lambda s: s["run"])[:4] or [{"note": "no non-trivial case"}]
     reach = []
-    for probe in ("fault.fresh_children", "fault.junk_alloc_free", "fault.gc_collect", "probe.wrapper.lazy_legacy", "probe.wrapper.sim_storage", "probe.wrapper.mixed", "fault.mix_handles.lazy_backrefs", "probe.wrapper.dag_node", "probe.wrapper.dag_program", "fault.dag_shared_uses"):
+    for probe in ("fault.fresh_children", "fault.junk_alloc_free", "fault.gc_collect", "probe.wrapper.lazy_legacy", "probe.wrapper.sim_storage", "probe.wrapper.mixed", "fault.mix_handles.lazy_backrefs", "probe.wrapper.dag_node", "probe.wrapper.dag_program", "fault.dag_shared_uses", "fault.accessor_raised", "fault.prior_call_failed"):
         if merged["counters"].get(probe, 0) == 0:
             reach.append("probe '%s' never fired in this batch" % probe)
     ev = {
@@ -748,7 +888,7 @@ def parent(tier, master, runs, workers, budget_s):
         "coverage": {
             "evaluations": merged["runs"],
             "distinct_nontrivial": len(fps),
-            "rule": "case = seeded tree (1..120 leaves, thorough 300; shared sub-trees; atom classes nil / 1 byte / short / 32 / ~64 bytes) offered through one of 17 wrappers: Program.to, CLVMTree.from_bytes, LazyNode from deser_legacy / deser_backrefs / deser_2026 / deser_auto, Program.wrap of a LazyNode / CLVMTree / simulated storage, a LazyNode produced by clvm_tree_to_lazy_node itself, an identity-sharing object graph (dag_*: equal sub-trees are one Python object with several parents, incl. mirrored pairs (a . b)/(b . a) over the same children; plain objects, Program.to over shared Program children, plain pairs over LazyNode-backed leaves; per distinct value the simulator decides interned or fresh), a MIXED tree (plain-Python spine whose sub-trees are handles walked out of three LazyNode allocators, a CLVMTree and a Program of the same tree; also under Program.wrap), and a harness storage object whose .pair decides per call - from the run PRNG, recorded as an explicit list for replay - whether to return cached or fresh child objects, whether to run gc.collect(), and how many same-size junk objects to allocate and free first (address-reuse churn). Oracle: ser_legacy(deser_2026(ser_2026(result))) and ser_legacy(result) equal the harness's own classic serialization of the tree. Non-trivial: tree with >= 2 pairs; distinct = sha256 fingerprints of (tree, wrapper, outcome).",
+            "rule": "case = seeded tree (1..120 leaves, thorough 300; shared sub-trees; atom classes nil / 1 byte / short / 32 / ~64 bytes) offered through one of 18 wrappers: Program.to, CLVMTree.from_bytes, LazyNode from deser_legacy / deser_backrefs / deser_2026 / deser_auto, Program.wrap of a LazyNode / CLVMTree / simulated storage, a LazyNode produced by clvm_tree_to_lazy_node itself, an identity-sharing object graph (dag_*: equal sub-trees are one Python object with several parents, incl. mirrored pairs (a . b)/(b . a) over the same children; plain objects, Program.to over shared Program children, plain pairs over LazyNode-backed leaves; per distinct value the simulator decides interned or fresh), a RETRY AFTER FAULT history (retry_after_fault: the same object graph is first converted once or twice while the simulator makes the k-th accessor call raise, or one leaf report a str / int atom - those calls fail - and then converted with the fault gone), a MIXED tree (plain-Python spine whose sub-trees are handles walked out of three LazyNode allocators, a CLVMTree and a Program of the same tree; also under Program.wrap), and a harness storage object whose .pair decides per call - from the run PRNG, recorded as an explicit list for replay - whether to return cached or fresh child objects, whether to run gc.collect(), and how many same-size junk objects to allocate and free first (address-reuse churn). Oracle: ser_legacy(deser_2026(ser_2026(result))) and ser_legacy(result) equal the harness's own classic serialization of the tree. Non-trivial: tree with >= 2 pairs; distinct = sha256 fingerprints of (tree, wrapper, outcome).",
             "samples": samples,
             "simulated_runs": merged["runs"],
             "nontrivial_runs": merged["nontrivial"],
